@@ -74,6 +74,16 @@ CLAIMS = {
         "against mypy-inferred types in the thorough tier. The one genuine hit (function/graph input order from a set[str]) was repaired (fix commit 16ea4a8).",
         "DESIGN.md §3 C14",
     ),
+    "C01": (
+        "writer/reader agreement on primitive parameters (jax bind() keyword table vs. keys read along the eqn/params dataflow of each lowering) + must-pass-through / dominance on the checked dispatcher",
+        "For each of the ~230 (plugin, parameter) pairs of plugins registered for JAX primitives, the parameter JAX binds must be read by lower() or by a package function the equation/params are handed to, "
+        "or be listed inert/derivable with a reason; every key a tracing substitute binds on a plugin-owned primitive must be read by lower(); lower_equation_with_plugin must pass input assertion, dispatch and "
+        "output finalisation in order on every path, and plugins must not dispatch sub-jaxpr equations privately. A dropped semantic parameter means two different JAX programs export to the same model - "
+        "a necessary-condition breach visible for every plugin, not only the sampled ones.",
+        "Decides parameter consumption and dispatch discipline ONLY; the numerical correctness of every lowering (operator choice, attribute values, rounding, clamping, integer division) is not decided and "
+        "cannot be by this family. Trusted: AST scan of bind() sites in the installed jax, the inert/derivable tables (one reason per entry). Two genuine hits were repaired (lax.round 29bea5a, conv batch groups f5d6c8d).",
+        "DESIGN.md §3 C01",
+    ),
 }
 
 NOT_APPLICABLE = {
